@@ -33,8 +33,8 @@ static void vx_begin_array(uint8_t type) { vx_events++; vx_ev_kind = VX_EV_BEGIN
 static bool vx_src_error, vx_utf8_ok; static uint64_t vx_span_avail;
 static size_t vx_source_read_span(size_t len) { return len <= vx_span_avail ? len : (size_t)vx_span_avail; }
 static bool vx_validate_utf8(size_t n) { return vx_utf8_ok; }
-static uint64_t vx_bits64(double d) { uint64_t u; memcpy(&u, &d, 8); return u; }
-static uint32_t vx_bits32(float f) { uint32_t u; memcpy(&u, &f, 4); return u; }
+static uint64_t vx_bits64(double d) { union { double d; uint64_t u; } x; x.d = d; return x.u; }
+static uint32_t vx_bits32(float f) { union { float f; uint32_t u; } x; x.f = f; return x.u; }
 
 /*@FUNC get_size@*/
 /*@FUNC read_item@*/
